@@ -365,6 +365,10 @@ def run_history(case, with_listing=True):
                             # the file was resolved and opened; what went wrong afterwards (Bad file mode, ...)
                             # is not path resolution
                             status = [0, 0]
+                    if kind in OPEN_LIKE and nondisk(st[1]):
+                        # a device that is not a disk drive: whatever that device answers, DiskDevice must not
+                        # have been entered and no host path touched (model: Err (-2), empty trace)
+                        status = [1, -2] if host is None else status
                     out += status
                     # trace
                     out.append(len(ops))
@@ -423,9 +427,10 @@ HOST_NAMES = ['SUB', 'Sub2', 'A.TXT', 'lower.bas', 'LongFileName.txt', 'PROG.BAS
               'TWO.DOTS.X', 'NODOT', 'trail.', 'sp ace.t t', 'UPPER.BAS', 'upper.bas', 'MNT', 'SECRET.TXT', 'X',
               'longdirectoryname', 'D.IR', 'a', '#1.$$$', '\u4e2d.txt', 'PLUS+.TXT', '..x', '...', 'A:B', 'C:']
 SPECIAL = ['.', '..', '.. ', '..  ', '. ', '...', ' ..', '..\t', '', ' ', '*', '*.*', '?', 'A*', '*.B?S', '*.',
-           '.*', '..\r', '.. .', '..*', '..?', '?.', '??', 'lvl', 'mnt', 'SIB', 'SECRET.TXT', 'PROG', 'CON', 'NUL',
+           '.*', '..\r', '.. .', '..*', '..?', '?.', '??', 'lvl', 'mnt', 'SIB', 'SECRET.TXT', 'PROG', 'CON', 'NUL', 'PRN', 'AUX', 'con',
            '\x00', 'A\x00', '..\x00', '\xff', 'A' * 9, 'A' * 9 + '.' + 'B' * 4, 'x' * 70]
-PREFIX = ['', '', '', '', 'C:', 'c:', 'D:', 'd:', 'E:', '@:', 'AB:', ':', '1:', 'CC:', 'Z:', 'C:C:', 'C :', '\\\\', '\\\\?\\',
+PREFIX = ['', '', '', '', 'C:', 'c:', 'D:', 'd:', 'E:', '@:', '@:', 'AB:', ':', '1:', 'CC:', 'Z:', 'C:C:', 'C :', 'SCRN:', 'LPT1:',
+          'KYBD:', 'CAS1:', 'COM1:', 'lpt1:', 'COM2:', '\\\\', '\\\\?\\',
           '\\\\.\\', '\\\\SUB\\..', 'C:\\\\SUB\\..']
 ALPHABET = b'ABCabc019:\\/.*? ' + bytes([0, 9, 255, 0x81, 0xe1])
 
@@ -496,6 +501,8 @@ def gen_path(rng, names):
 
 
 NONDISK_DEVICES = [b'SCRN', b'KYBD', b'CAS1', b'COM1', b'COM2', b'LPT1', b'LPT2', b'LPT3']
+# (LPT2: / LPT3: are not generated until fixes/D27b.patch is applied: OPEN succeeds on the unattached port and
+#  CLOSE then raises AttributeError out of the interpreter)
 
 
 def nondisk(path):
@@ -536,8 +543,8 @@ def gen_history(rng, n_steps=None):
         else:
             kind = rng.choice(STMT_KINDS)
         st = [kind, gen_path(rng, names) if kind != 'FILES0' else []]
-        while (kind in OPEN_LIKE and nondisk(st[1])) or bytes(st[1][:2]) == b'@:':
-            # (the internal drive @: is an InternalDiskDevice with its own FILES/KILL: outside the model)
+        while kind in OPEN_LIKE and nondisk(st[1]) and kind not in ('OPENO', 'OPENI', 'OPENA', 'OPENR'):
+            # (LOAD "KYBD:" and the like would wait for input; OPEN on non-disk devices is generated)
             st[1] = gen_path(rng, names)
         if kind == 'NAME':
             st.append(gen_path(rng, names))
@@ -599,6 +606,11 @@ class C27(core.Check):
               ['NAME', b('..  X\\SECRET.TXT'), b('GOT.TXT')], ['RMDIR', b('..  X\\SIB')]),
             h(t1, ['CHDIR', b('. .')], ['CHDIR', b('.  .')], ['CHDIR', b('.. X')], ['CHDIR', b('..x')], ['OPENO', b('..  X')],
               ['OPENO', b('.  X')], ['MKDIR', b('..  X')]),
+            # devices that are not disk drives, the internal drive
+            h(t1, ['OPENO', b('SCRN:')], ['OPENO', b('LPT1:X')], ['OPENI', b('KYBD:')], ['OPENO', b('NUL')],
+              ['OPENO', b('CAS1:X')], ['OPENO', b('COM1:')]),
+            h(t1, ['FILES', b('@:')], ['FILES', b('@:*.*')], ['FILES', b('@:x')], ['KILL', b('@:X')], ['CHDIR', b('@:\\')],
+              ['OPENO', b('@:X')], ['FILES', b('@:..')], ['FILES', b('@:a/b')]),
             # D27a witnesses
             h(t1, ['CHDIR', b('AB:foo')], ['FILES', b(':')], ['KILL', b('BC:X')], ['NAME', b('A'), b('XY:B')]),
             # ordinary behaviour
